@@ -12,6 +12,7 @@ import (
 	"sync"
 
 	"filippo.io/edwards25519"
+	"filippo.io/edwards25519/field"
 )
 
 func main() {
@@ -42,6 +43,27 @@ func main() {
 		out = append(out, new(edwards25519.Point).VarTimeDoubleScalarBaseMult(k[i%3], mine, k[(i+1)%3]).Bytes()...)
 		out = append(out, new(edwards25519.Point).ScalarMult(k[i%3], mine).Bytes()...)
 		out = append(out, new(edwards25519.Point).VarTimeMultiScalarMult([]*edwards25519.Scalar{k[0], k[1]}, []*edwards25519.Point{mine, shared}).Bytes()...)
+		// every other operation class, on private values
+		if d, err := new(edwards25519.Point).SetBytes(mine.Bytes()); err == nil {
+			out = append(out, d.BytesMontgomery()...)
+			out = append(out, new(edwards25519.Point).Subtract(d, shared).Bytes()...)
+			out = append(out, new(edwards25519.Point).MultByCofactor(d).Bytes()...)
+			X, Y, Z, T := d.ExtendedCoordinates()
+			if r, err := new(edwards25519.Point).SetExtendedCoordinates(X, Y, Z, T); err == nil {
+				out = append(out, r.Negate(r).Bytes()...)
+			}
+			out = append(out, new(field.Element).Invert(X).Bytes()...)
+			sr, was := new(field.Element).SqrtRatio(X, Z)
+			out = append(out, append(sr.Bytes(), byte(was))...)
+			out = append(out, new(field.Element).Absolute(Y).Bytes()...)
+		} else {
+			out = append(out, []byte("decode failed")...)
+		}
+		out = append(out, new(edwards25519.Scalar).Invert(k[i%3]).Bytes()...)
+		out = append(out, new(edwards25519.Scalar).MultiplyAdd(k[0], k[1], k[i%3]).Bytes()...)
+		if s, err := new(edwards25519.Scalar).SetBytesWithClamping(k[i%3].Bytes()); err == nil {
+			out = append(out, s.Bytes()...)
+		}
 		switch (i + seed) % 3 {
 		case 0:
 			out = append(out, new(edwards25519.Point).ScalarBaseMult(k[i%3]).Bytes()...)
